@@ -5,6 +5,7 @@ import EzdxfVerif.Model.ReadersLines
 import EzdxfVerif.Model.ReadersRepair
 import EzdxfVerif.Model.ReadersSniff
 import EzdxfVerif.Model.ReadersRecVer
+import EzdxfVerif.Model.ReadersFilter
 import EzdxfVerif.Gen.ReaderTables
 import Drivers.Proto
 open EzdxfVerif EzdxfVerif.Readers Proto
@@ -13,6 +14,7 @@ open EzdxfVerif EzdxfVerif.Readers Proto
   tags   = `code,value;code,value;...`   value: printable text, `%N.` = code point N (for `% ; | ,` and non-ASCII)
   rd|READER|MSP|PSP|tags        READER in strict strictf iter sp0 sp1 idx rec; MSP/PSP = owner handles of the layout block records
                                 -> `ok TYPE:HANDLE[sub,sub]seqend;...` or `err:<class>`
+  rdf|READER|TYPES|MSP|PSP|tags READER in iter sp idx; TYPES = `-` (None), empty, or a comma separated list: a read with `types=`
   grp|tags                      -> groupTags: `n1,n2,...` sizes and first values
   jw|compact(0/1)|wtags         wtags = `s,code,value` or `v,code,x y z` separated by `;`  -> json pairs + loader result + ascii
   r12|pretags|calls             calls = `S~TYPE~tags` or `P~tags~vtags~vtags...` separated by `!`; pretags = preface file part
@@ -28,8 +30,8 @@ open EzdxfVerif EzdxfVerif.Readers Proto
   xb|src triples|nPrefix|objStart,objLen or -|written tags   -> the bytes of the iterdxf exporter's output file
   loc|c,val,crlf;...            -> fileindex locations (byte offsets) of the structure tags
   ro|tags                       -> recover's tag_reorder_layer on a raw tag stream
-  ln|bytes (decimal, blank separated)  -> `T<tags>|B<tags>|G<tags>`: ascii_tags_loader on a text-mode stream, bytes_loader,
-                                iterdxf binary_tagger (`err` for an invalid group code line)
+  ln|bytes (decimal, blank separated)  -> `T<tags>|B<tags>|G<tags>|C<tags>`: ascii_tags_loader on a text-mode stream, bytes_loader,
+                                iterdxf binary_tagger, internal_tag_compiler behind `to_str` (`err` for an invalid group code line)
   det|tags                      -> `ver,enc|ver,enc|enc|enc` decisions of dxf_info, fileindex.load, single_pass_modelspace, detect_encoding
   detv|tags                     -> Recover.run().dxfversion
   bin|bytes (decimal, blank separated)  -> encoding chosen by binary_tags_loader.scan_params or `err`
@@ -156,6 +158,18 @@ def step (line : String) : String :=
       | "sp" => showRes (singlePass cfg Gen.ReaderTables.singlePassFlush f)
       | "idx" => showRes (indexModelspace cfg Gen.ReaderTables.maxGroupCode f)
       | _ => "bad-op reader"
+  | ["rdf", rdr, types, msp, psp, ts] =>
+    match parseTags ts with
+    | none => "bad-op tags"
+    | some f =>
+      let tys : Option (List String) :=
+        if types = "-" then none else if types.isEmpty then some [] else some (types.splitOn ",")
+      let cfg := (mkCfg msp psp).withTypes Gen.ReaderTables.supportedTypes tys Gen.ReaderTables.filterDropsImplicit
+      match rdr with
+      | "iter" => showRes (iterModelspace cfg f)
+      | "sp" => showRes (singlePass cfg Gen.ReaderTables.singlePassFlush f)
+      | "idx" => showRes (indexModelspace cfg Gen.ReaderTables.maxGroupCode f)
+      | _ => "bad-op reader"
   | ["grp", ts] =>
     match parseTags ts with
     | none => "bad-op tags"
@@ -167,6 +181,7 @@ def step (line : String) : String :=
       let j := jsonWrite (compact = "1") w
       let isPt := fun c => Gen.ReaderTables.pointCodes.contains c
       ";".intercalate (j.map showJ) ++ "|" ++ showTags (jsonLoad isPt j) ++ "|" ++ showTags (asciiLoad (asciiWrite w))
+  | ["r12", "-", "structure"] => "the file has the structure of the calls (POLYLINE + one VERTEX per point + SEQEND)"
   | ["r12", pre, cs] =>
     match parseTags pre, (if cs.isEmpty then some [] else (cs.splitOn "!").mapM parseCall) with
     | some p, some calls =>
@@ -236,7 +251,11 @@ def step (line : String) : String :=
       let showR := fun (pre : String) (r : Except LErr (List RawTag)) => match r with
         | .ok ts => pre ++ ";".intercalate (ts.map fun t => s!"{t.code},{esc (String.ofList (t.val.map Char.ofNat))}")
         | .error _ => pre ++ "err"
-      showR "T" (tagsText data) ++ "|" ++ showR "B" (tagsBytesLoader data) ++ "|" ++ showR "G" (tagsBinTagger data)
+      -- internal_tag_compiler: an odd number of lines is an IndexError there (`C?`) unless a code line fails first
+      let chunk := match tagsChunk data with
+        | .ok ts => if (readLines (replaceCRLF data)).length % 2 = 1 then "C?" else showR "C" (.ok ts)
+        | .error e => showR "C" (.error e)
+      showR "T" (tagsText data) ++ "|" ++ showR "B" (tagsBytesLoader data) ++ "|" ++ showR "G" (tagsBinTagger data) ++ "|" ++ chunk
   | ["r12x", hdr, tab, blk, mspT, pspT] =>
     match parseTags hdr, parseTags tab, parseTags blk, parseTags mspT, parseTags pspT with
     | some h, some t, some b, some m, some p =>
